@@ -342,7 +342,7 @@ PROP = Property(
           "of edge classes."),
     strategy=strategy,
     run_case=run_case,
-    budgets={"quick": 12000, "thorough": 200000},
+    budgets={"quick": 12000, "thorough": 400000},
     assumptions=[
         "a single NUL-terminated argument containing spaces is "
         "indistinguishable from a rewritten title: both answers accepted",
